@@ -86,7 +86,7 @@ def run_case(case) -> Result:
     res.nontrivial = model.nontrivial
     if model.con is not None:
         J = model.con.jac(q)
-        if np.linalg.cond(J @ model.Minv_const @ J.T) > 1e4:
+        if zoo.gram_ill_conditioned(J, model.Minv_const):
             res.discarded = True  # constraint Jacobian (nearly) rank deficient here: outside the domain
             res.classes.append("discard:rank-deficient-jacobian")
             return res
@@ -142,7 +142,7 @@ def run_case(case) -> Result:
             return res
     q2 = q + 0.37 * np.roll(p, 1) + 0.11
     p2 = p - 0.23 * np.roll(q, 1) + 0.07
-    if model.con is not None and np.linalg.cond(model.con.jac(q2) @ model.Minv_const @ model.con.jac(q2).T) > 1e4:
+    if model.con is not None and zoo.gram_ill_conditioned(model.con.jac(q2), model.Minv_const):
         return res
     if cls == "riem_softabs" and np.min(np.abs(np.linalg.eigvalsh(model.dens.hess(q2)))) < 1e-6:
         return res
